@@ -43,7 +43,8 @@ def infer_cases():
 
 
 def tracer_cases():
-    call = {"ev": "Call", "fid": 1, "f": "f", "kind": "plain", "wanted": True, "caller": 0, "catch": True, "args": [{"n": "a", "v": V1}]}
+    call = {"ev": "Call", "fid": 1, "f": "f", "kind": "plain", "wanted": True, "caller": 0, "catch": True, "drawn": False, "draw": 0,
+            "args": [{"n": "a", "v": V1}]}
     ret = {"ev": "Return", "fid": 1, "how": "expr", "v": VS}
     log = {"ev": "Log", "fid": 0, "f": "f", "known": True, "model": "F", "args": [{"n": "a", "ty": INT}], "ret": STR, "ys": ABSENT}
     end = {"ev": "End", "fid": 0, "resid": 0, "flushes": 1, "err": "NONE"}
@@ -57,8 +58,10 @@ def tracer_cases():
     noret = tr(5, [call, ret, dict(log, ret=ABSENT), end])
     resid = tr(6, [call, ret, log, dict(end, resid=1)])
     sampled_skip = tr(7, [call, ret, end], rate=2)                           # allowed under sampling
-    return [good, dropped, twice, wrongarg, noret, resid, sampled_skip], {
-        1: set(), 2: {"MissingLog"}, 3: {"SpuriousLog"}, 4: {"ArgTypes"}, 5: {"ReturnPresent"}, 6: {"Residue"}, 7: set()}
+    sampled_lost = tr(8, [dict(call, drawn=True, draw=0), ret, end], rate=2)  # the draw said "trace" but nothing was logged
+    return [good, dropped, twice, wrongarg, noret, resid, sampled_skip, sampled_lost], {
+        1: set(), 2: {"MissingLog"}, 3: {"SpuriousLog"}, 4: {"ArgTypes"}, 5: {"ReturnPresent"}, 6: {"Residue"}, 7: set(),
+        8: {"SampledCallNotLogged"}}
 
 
 def store_cases():
